@@ -300,6 +300,10 @@ func (msg *MessageAuth) FromChunks(chunks []*MessageChunk) error {
 	var foundDelimiter bool
 	for i, b := range src {
 		if b == MessageChunkBytesDelimiter {
+			if i == len(src)-1 {
+				// no room for a public key and its parity after the delimiter
+				break
+			}
 			msg.Username = string(src[:i])
 			msg.PublicKeyBytes = src[i+1 : len(src)-1]
 			msg.PublicKeyParity = src[len(src)-1]
